@@ -36,7 +36,7 @@ Bits == {"lo", "mid", "hi"}
 Cuts == {"boundary", "header8", "header16", "header40", "header63", "body1", "bodymid", "bodylast"}
 
 \* state of the protected files: intact, one deleted, one emptied, all deleted (no usable slice at all)
-DataStates == {"none", "one", "empty", "allgone"}
+DataStates == {"none", "one", "empty", "allgone", "zerotail"}   \* zerotail: a data file lost some of the zero bytes its last slice ends in
 
 VARIABLE d
 Init == d = [kind |-> "root"]
